@@ -635,3 +635,46 @@ func (t *descTarget) Canary() string {
 	}
 	return ""
 }
+
+// --- deterministic series ------------------------------------------------------------
+
+func (t *commitTarget) FixedPlans(rng *rand.Rand) []fixedPlan {
+	return plainPlans(rng, t.seeds, func(_ int, s *Seed) string { return s.Aux })
+}
+
+func (t *descTarget) FixedPlans(rng *rand.Rand) []fixedPlan {
+	out := plainPlans(rng, t.seeds, func(_ int, s *Seed) string { return s.Aux })
+	// The signed blobs themselves, re-signed after the change, so that the checks behind the
+	// signature see every prefix too.
+	for _, s := range t.seeds {
+		switch s.Aux {
+		case "node":
+			var ms signature.MultiSigned
+			if cbor.Unmarshal(s.Data, &ms) != nil || len(ms.Blob) > 4096 {
+				continue
+			}
+			out = append(out, newFixedPlan(rng, &Seed{Name: s.Name + " blob", Data: ms.Blob, CBOR: true}, "node", ":resigned", func(b []byte) []byte {
+				o := signature.MultiSigned{Blob: b}
+				for _, sgn := range t.nodeKey {
+					if sig, err := signature.Sign(sgn, registry.RegisterNodeSignatureContext, b); err == nil {
+						o.Signatures = append(o.Signatures, *sig)
+					}
+				}
+				return cbor.Marshal(o)
+			}))
+		case "entity":
+			var sg signature.Signed
+			if cbor.Unmarshal(s.Data, &sg) != nil || len(sg.Blob) > 4096 {
+				continue
+			}
+			out = append(out, newFixedPlan(rng, &Seed{Name: s.Name + " blob", Data: sg.Blob, CBOR: true}, "entity", ":resigned", func(b []byte) []byte {
+				sig, err := signature.Sign(t.entSig, registry.RegisterEntitySignatureContext, b)
+				if err != nil {
+					return b
+				}
+				return cbor.Marshal(signature.Signed{Blob: b, Signature: *sig})
+			}))
+		}
+	}
+	return out
+}
